@@ -44,7 +44,7 @@ func init() {
 	register(&CheckDef{
 		ID:    "C13",
 		Level: "exploration",
-		Rule: "text space of the front end: (1) every sequence of at most 3 (quick) / 4 (thorough) fragments from a 43-piece lexical alphabet (directives, brackets, quotes, comment marks, identifiers, numbers, separators; joined by blanks), (2) every byte prefix of every corpus grammar file (repository examples + rendered families), (3) every single-token deletion, duplication and replacement by each alphabet fragment at every token position of every corpus file; each text goes through the real ParseAndBuild (and, when that succeeds, the Go and TypeScript generators and the debug listing) on the overlay build in which every loop iteration burns fuel; " +
+		Rule: "text space of the front end: (1) every sequence of at most 3 (quick) / 4 (thorough) fragments from a 43-piece lexical alphabet, in the thorough tier also every sequence of exactly 5 over the 16 structural fragments (1 048 576 texts) (directives, brackets, quotes, comment marks, identifiers, numbers, separators; joined by blanks), (2) every byte prefix of every corpus grammar file (repository examples + rendered families), (3) every single-token deletion, duplication and replacement by each alphabet fragment at every token position of every corpus file; each text goes through the real ParseAndBuild (and, when that succeeds, the Go and TypeScript generators and the debug listing) on the overlay build in which every loop iteration burns fuel; " +
 			"a run that exhausts its fuel (25 000 loop iterations per input byte, at least 750 000), a spinning background goroutine or a runtime deadlock is a hang; every flagged text is confirmed on the native CLI binary (must still be running after 10 s); non-trivial = text that gets past the lexer's first token; distinct = distinct texts",
 		Assumptions: []string{
 			"fuel budget is at least 50x the largest consumption per input byte of any terminating run in the same space (reported as max_ticks_per_byte_terminating); loops are instrumented by the overlay rewriter in all repository packages",
@@ -144,6 +144,34 @@ func c13Work(w *Worker) {
 	}
 	t0 := time.Now()
 	rec()
+	if w.Thorough() {
+		// one level deeper over the 16 structural fragments (directives, brackets, quotes, comment marks)
+		core := []string{"%token", "%left", "%type", "%union {", "%{", "%}", "%%", "%prec", "%start", "<", ">", "A", "'a'", "{", "/*", "\n"}
+		cc := make([]string, 0, 5)
+		var rec5 func()
+		rec5 = func() {
+			if len(cc) == 5 {
+				if w.Mine(idx) {
+					c := &textCase{Origin: "fragments-core-5", Text: strings.Join(cc, " ")}
+					if idx%64 == 0 {
+						w.Begin(idx, c)
+					}
+					c13Eval(w, c)
+					if idx%256 == 0 {
+						w.Recycle(idx + 1)
+					}
+				}
+				idx++
+				return
+			}
+			for _, f := range core {
+				cc = append(cc, f)
+				rec5()
+				cc = cc[:len(cc)-1]
+			}
+		}
+		rec5()
+	}
 	w.Max("phase_fragments_ms", time.Since(t0).Milliseconds())
 	t0 = time.Now()
 	defer func() { w.Max("phase_files_ms", time.Since(t0).Milliseconds()) }()
